@@ -32,9 +32,9 @@ CfgOf(c) == [scripts |-> c.scripts, auth |-> c.auth, maxItems |-> c.maxItems,
              flags |-> FnOf(c.flags),
              nsig |-> c.nsig, nct |-> c.nct,
              contracts |-> {c.contracts[i] : i \in 1..Len(c.contracts)},
-             now |-> c.now, forks |-> FnOf(c.forks), ret0 |-> c.ret0]
+             now |-> c.now, forks |-> FnOf(c.forks), ret0 |-> c.ret0, hist |-> FALSE]
 
-HintOf(ev) == [rand |-> ev.h.rand, prim |-> ev.h.prim, pushed |-> ev.pushed,
+HintOf(ev) == [rand |-> ev.h.rand, prim |-> ev.h.prim, pushed |-> ev.pushed, top |-> ev.top,
                etext |-> ev.h.etext, abi |-> <<>>, ct |-> ev.h.ct, adopt |-> ev.h.adopt]
 
 ApplyDelta(bc, cw, cd) ==
@@ -68,6 +68,10 @@ Failing(v, w, ev) ==
     \cup (IF w.obs.plug = ev.plug THEN {} ELSE {"plugins"})
     \cup (IF ~ev.flc \/ w.frames = <<>> \/ Flags(w) = FnOf(ev.fl) THEN {} ELSE {"flags"})
     \cup (IF ~ev.sdelta THEN {} ELSE {"strkeys"})
+    \cup (IF ev.k # "op" \/ ev.h.adopt \/ w.obs.alloc = ev.alloc THEN {} ELSE {"alloc"})
+    \cup (IF StackBounded(w) /\ ItemBounded(w) /\ ev.hwi <= w.cfg.maxItems /\ ev.hws <= w.cfg.maxItemSize THEN {} ELSE {"limits"})
+    \cup (IF PcInRange(w) /\ DepthBounded(w) /\ LoopBounded(w) THEN {} ELSE {"bounds"})
+    \cup (IF ReturnScoped(w) THEN {} ELSE {"retscope"})
     \cup (IF w.frames = <<>> \/ (TT(w).plug = ev.hplug /\ TT(w).contr = ev.hcontr) THEN {} ELSE {"config"})
     \cup (IF (ev.k = "end") = (w.status # "run") THEN {} ELSE {"end"})
     \cup (IF ev.k # "end" \/ ~w.cfg.auth \/ ev.verdict = Verdict(w) THEN {} ELSE {"verdict"})
